@@ -516,6 +516,11 @@ class JunctionCompartment(Compartment):
         outflow_fractions = [link.parameter.vals[ti] for link in self.outlinks]
         total_outflow = sum(outflow_fractions)
 
+        if total_outflow == 0 and not np.any(net_inflow):
+            # Nobody is passing through the junction at this step, so every outflow is zero whatever
+            # the proportions are. Avoid 0/0 = NaN, which would otherwise contaminate downstream compartments
+            total_outflow = 1.0
+
         # Finally, assign the inflow to the outflow proportionately accounting for the total outflow downscaling
         for frac, link in zip(outflow_fractions, self.outlinks):
             if self.duration_group:
